@@ -25,6 +25,7 @@ def run(tier):
     plans = uniq
     if len(plans) < nplans:
         raise vlib.InfraError("Purity emitted %d plans" % len(plans))
+    vlib.coverage_audit(run, "Purity", [pcfg(2, "FALSE", "FALSE", 2)], ["S1", "S2", "S3", "Emit"])
     r2 = vlib.tlc_ok(vlib.run_tlc("Purity", pcfg(2, "FALSE", "FALSE", 0), timeout=300), "Purity P=2")
     run.add_tlc(r2, "Purity P=2")
     for name, sh, wi, want in [("shared scratch", "TRUE", "FALSE", "NonInterference"), ("writes input", "FALSE", "TRUE", None)]:
